@@ -51,3 +51,32 @@ package php5
 // is attached to the first element after its position was taken); its end is final and is what
 // the fold relies on.
 //@ gram provisional-start chaining_dereference chaining_instance_call chaining_method_or_property instance_call variable_property method_or_not array_method_dereference object_property object_dim_list dynamic_class_name_variable_property dynamic_class_name_variable_properties variable_properties : elements are partial chain nodes whose start is set by the folding rule
+
+// The two methods through which the LR driver talks to the scanner and to the caller (C01, C06).
+//@ func (*Parser).Lex
+//@   requires p != nil && lval != nil && lexwf(p.Lexer)
+//@   ensures p.currentToken != nil && lval.token == p.currentToken && result == p.currentToken.ID
+//@   props C01, C06
+
+// A syntax error is forwarded with the message the driver built and the position of the
+// look-ahead token (nil for the end token, which has no position of its own); the callback is
+// optional.
+//@ func (*Parser).Error
+//@   requires p != nil && (p.errHandlerFunc != nil ==> p.currentToken != nil)
+//@   ensures p.errHandlerFunc == nil ==> cbcount() == old(cbcount())
+//@   ensures p.errHandlerFunc != nil ==> (cbcount() == old(cbcount()) + 1 && fresh(cbarg()) && aserror(cbarg()).Msg == msg && aserror(cbarg()).Pos == p.currentToken.Position)
+//@   modifies nothing
+//@   props C01, C06
+
+//@ func lastNode
+//@   ensures len(nn) == 0 ==> result == nil
+//@   ensures len(nn) > 0 ==> result == nn[len(nn) - 1]
+//@   modifies nothing
+//@   props C01
+
+//@ func (*Parser).reportError
+//@   requires p != nil
+//@   ensures p.errHandlerFunc == nil ==> cbcount() == old(cbcount())
+//@   ensures p.errHandlerFunc != nil ==> (cbcount() == old(cbcount()) + 1 && cbarg() == int(e))
+//@   modifies nothing
+//@   props C01, C06
